@@ -709,6 +709,7 @@ package profile
 //@   ensures created_flags: src != nil && fresh(result.m) ==> (result.m.HasFunctions <==> src.HasFunctions) && (result.m.HasFilenames <==> src.HasFilenames)
 //@       && (result.m.HasLineNumbers <==> src.HasLineNumbers) && (result.m.HasInlineFrames <==> src.HasInlineFrames)
 //@   ensures created_listed: src != nil && fresh(result.m) ==> len(pm.p.Mapping) == old(len(pm.p.Mapping)) + 1 && pm.p.Mapping[len(pm.p.Mapping) - 1] == result.m
+//@   ensures mappings_ok: forall k mappingKey :: has(pm.mappings, k) ==> pm.mappings[k] != nil
 
 // ---- C07 (strengthened after seeded change compatibilize-reorder-flag-not-sticky) ----
 //@ func searchValueType arith bv
@@ -1039,6 +1040,8 @@ package profile
 // its key, with the source's values and as many locations ----
 //@ func profileMerger.mapSample arith bv
 //@   requires pm != nil && pm.p != nil && pm.samples != nil && src != nil
+//@   requires tables: pm.functions != nil && pm.functionsByID != nil && pm.mappings != nil && pm.mappingsByID != nil && pm.locations != nil
+//@   requires mappings_ok: forall k mappingKey :: has(pm.mappings, k) ==> pm.mappings[k] != nil
 //@   requires memo_ok: forall k sampleKey :: has(pm.samples, k) ==> pm.samples[k] != nil && len(pm.samples[k].Value) >= len(src.Value) && (len(src.Value) == 0 || !same_array(pm.samples[k].Value, src.Value))
 //@   ensures hit_same: aftercall("profileMerger.sampleKey", has(pm.samples, callres("profileMerger.sampleKey", 0))) ==> result == aftercall("profileMerger.sampleKey", pm.samples[callres("profileMerger.sampleKey", 0)]) && len(pm.p.Sample) == aftercall("profileMerger.sampleKey", len(pm.p.Sample))
 //@   ensures hit_sum: aftercall("profileMerger.sampleKey", has(pm.samples, callres("profileMerger.sampleKey", 0))) ==> forall i int :: 0 <= i && i < len(src.Value) ==> result.Value[i] == aftercall("profileMerger.sampleKey", pm.samples[callres("profileMerger.sampleKey", 0)].Value[i]) + src.Value[i]
@@ -1074,6 +1077,9 @@ package profile
 // ---- C14/C02: java legacy profiles. The attribute and sample sections are walked line by line: a blank line never
 // ends a section (every return from inside the loops happens on a non-blank line), the line cursor stays inside the
 // buffer for any input, and a sample gets exactly two values ----
+//@   loop 2
+//@     invariant tables: pm != nil && pm.p != nil && pm.functions != nil && pm.functionsByID != nil && pm.mappings != nil && pm.mappingsByID != nil && pm.locations != nil && forall k mappingKey :: has(pm.mappings, k) ==> pm.mappings[k] != nil
+
 //@ func parseJavaHeader
 //@   uses profile.errs
 //@   requires wfprofile(p)
@@ -1175,6 +1181,7 @@ package profile
 //@   ensures created: src != nil && result != nil && fresh(result) ==> result.Address == uint64(int64(src.Address) + callres("profileMerger.mapMapping", 0).offset) && result.Mapping == callres("profileMerger.mapMapping", 0).m
 //@       && len(result.Line) == len(src.Line) && (result.IsFolded <==> src.IsFolded) && len(pm.p.Location) == old(len(pm.p.Location)) + 1 && pm.p.Location[len(pm.p.Location) - 1] == result
 //@   ensures created_lines: src != nil && result != nil && fresh(result) ==> forall j int :: 0 <= j && j < len(src.Line) ==> result.Line[j].Line == src.Line[j].Line && result.Line[j].Column == src.Line[j].Column
+//@   ensures mappings_ok: forall k mappingKey :: has(pm.mappings, k) ==> pm.mappings[k] != nil
 //@   loop 1
 //@     invariant 0 <= $i && $i <= len(src.Line) && l != nil && fresh(l) && fresh(l.Line) && len(l.Line) == len(src.Line) && src != nil
 //@     invariant pm != nil && pm.p != nil && pm.functions != nil && pm.functionsByID != nil && pm.locations != nil
@@ -1185,7 +1192,22 @@ package profile
 
 // remapFunctionIDs: a function met for the first time gets the next id (count so far + 1) and is appended; a function
 // already seen, or a nil function, changes nothing
+//@     invariant mappings_ok: forall k mappingKey :: has(pm.mappings, k) ==> pm.mappings[k] != nil
 //@ func Profile.remapFunctionIDs arith bv nosafety
 //@   loop 2
 //@     step numbered: len(fns) != len(iter(fns)) ==> len(fns) == len(iter(fns)) + 1 && fns[len(fns) - 1] == fn && fn.ID == uint64(len(fns)) && fn != nil && !atiter(2, has(seen, fn) && seen[fn])
 //@     step skipped: len(fns) == len(iter(fns)) ==> fn == nil || atiter(2, has(seen, fn) && seen[fn])
+
+// sampleKey: computing a key memoises locations through mapLocation and otherwise only builds a string; the merger's
+// tables stay well formed and the sample table is not touched
+//@ func profileMerger.sampleKey arith bv nosafety
+//@   requires pm != nil && pm.p != nil && pm.functions != nil && pm.functionsByID != nil && pm.mappings != nil && pm.mappingsByID != nil && pm.locations != nil && sample != nil
+//@   requires mappings_ok: forall k mappingKey :: has(pm.mappings, k) ==> pm.mappings[k] != nil
+//@   ensures mappings_ok: forall k mappingKey :: has(pm.mappings, k) ==> pm.mappings[k] != nil
+//@   ensures samples_untouched: forall k sampleKey :: has(pm.samples, k) == old(has(pm.samples, k)) && pm.samples[k] == old(pm.samples[k])
+//@   ensures list_untouched: len(pm.p.Sample) == old(len(pm.p.Sample))
+//@   loop 1
+//@     invariant pm != nil && pm.p != nil && pm.functions != nil && pm.functionsByID != nil && pm.mappings != nil && pm.mappingsByID != nil && pm.locations != nil && sample != nil
+//@     invariant mappings_ok: forall k mappingKey :: has(pm.mappings, k) ==> pm.mappings[k] != nil
+//@     invariant samples_untouched: forall k sampleKey :: has(pm.samples, k) == old(has(pm.samples, k)) && pm.samples[k] == old(pm.samples[k])
+//@     invariant list_untouched: len(pm.p.Sample) == old(len(pm.p.Sample))
